@@ -19,12 +19,17 @@ semaphore capacity; `R := run v (init cap prods withClose) sched` is "the state 
   ends with `deliveryWg.Done()`: `C12_dispatch_wg_accounting`, `C12_open_failure_step`,
   `C12_release_step`, `C12_wg_zero_when_stuck` (and all of the above, which quantify over these
   schedules too);
+* a delivery attempt that panics (`Who.thrPanic`; panic recovery active): `C12_target_panic_step`,
+  `C12_panic_release_step` (same release as a normal end), `C12_quarantine_step`,
+  `C12_target_panic_quarantined_when_stuck`, `C12_quarantine_may_follow_close`; the safety theorems
+  say "only a panicking delivery …" (`C12_no_panic`, `C12_no_broken_mark_on_shutdown`) with the
+  original statements as corollaries for schedules without one (`…_without_target_panic`);
 * timeliness: `C12_timer_for_earliest` (once every wake-up has been received the timer the wheel
   waits for is the one of the earliest pending entry);
 * concrete runs: `C12_unfixed_counterexample`, `C12_fixed_race_example`, `C12_two_producers_example`,
   `C12_open_failure_example`.
 
-Method: `step_elim` lists the 35 shapes an enabled step can have; each invariant is proved by
+Method: `step_elim` lists the 36 shapes an enabled step can have; each invariant is proved by
 `…_init` and `…_step` and transported along `run` by `run_inv`; numbers of goroutines with a
 property are sums of 0/1 weights (`sum_set_eq`, `le_sum_map`).
 -/
@@ -148,7 +153,7 @@ theorem closest_none : ∀ (l : List Slot), closest l = none → l = [] := by
 
 /-! ## case analysis of one step -/
 
-/-- Every enabled step is one of these 35 shapes (one per synchronisation operation and outcome). -/
+/-- Every enabled step is one of these 36 shapes (one per synchronisation operation and outcome). -/
 theorem step_elim {v : Variant} {s s' : St} {w : Who} (h : step v s w = some s')
     {motive : Who → St → Prop}
     (acquire : ∀ (i c : Nat) (t : Thread), s.thr[i]? = some t → t.pc = .acquire → s.semHeld < s.semCap →
@@ -181,6 +186,8 @@ theorem step_elim {v : Variant} {s s' : St} {w : Who} (h : step v s w = some s')
       motive (.thr i c) { s with semHeld := s.semHeld - 1, wg := s.wg - 1, thr := s.thr.set i { t with pc := .discard } })
     (discard : ∀ (i c : Nat) (t : Thread), s.thr[i]? = some t → t.pc = .discard →
       motive (.thr i c) { s with broken := t.slot.msg :: s.broken, thr := s.thr.set i { t with pc := .done } })
+    (deliverPanic : ∀ (i : Nat) (t : Thread), s.thr[i]? = some t → t.pc = .deliver →
+      motive (.thrPanic i) { s with tpanic := t.slot.msg :: s.tpanic, thr := s.thr.set i { t with pc := .panicRelease } })
     (top : s.tick = .top → motive .tick { s with tickNow := s.now, tick := .scanLock })
     (scanLock : s.tick = .scanLock → s.mutex = none → motive .tick { s with mutex := some .tick, tick := .scan })
     (scanEmpty : s.tick = .scan → closest s.slots = none → motive .tick { s with mutex := none, tick := .waitEmpty })
@@ -270,6 +277,15 @@ theorem step_elim {v : Variant} {s s' : St} {w : Who} (h : step v s w = some s')
       · rename_i hpc
         cases h; exact discard i c t hget hpc
       · cases h
+      · cases h
+  | thrPanic i =>
+    simp only [step, stepThrPanic] at h
+    split at h
+    · cases h
+    · rename_i t hget
+      split at h
+      · rename_i hpc
+        cases h; exact deliverPanic i t hget hpc
       · cases h
   | closer =>
     simp only [step, stepCloser] at h
@@ -480,7 +496,7 @@ theorem reqInv_step {v : Variant} {s s' : St} {w : Who} (hI : ReqInv s) (h : ste
     have := le_sum_map (reqW r) _ _ _ hget
     simp only [sum_set_eq hget]
     cases hk : t.kind <;> simp_all [reqW, inAdd, reqS, afterAdd, afterPanic] <;> grind
-  case updEmpty | updKeep | updReset =>
+  case updEmpty | updKeep | updReset | deliverPanic =>
     intro i t hget hpc
     intros
     intro r
@@ -598,7 +614,7 @@ theorem ownInv_step {v : Variant} {s s' : St} {w : Who} (hT : TickCurIn s) (hI :
     have := le_sum_map (ownW m) _ _ _ hget
     simp only [ownCount, sum_set_eq hget] at *
     cases hk : t.kind <;> simp_all [ownW, owning, msgS, afterAdd, afterPanic, tickOwn, tickHolds, List.count_cons] <;> grind
-  case updEmpty | updKeep | updReset =>
+  case updEmpty | updKeep | updReset | deliverPanic =>
     intro i t hget hpc
     intros
     intro m
@@ -677,7 +693,7 @@ theorem kindInv_step {v : Variant} {s s' : St} {w : Who} (hI : KindInv s)
     rcases mem_set_cases ht' with rfl | hm
     · simp_all [prodPc, afterAdd, afterPanic]
     · exact hI t' hm hk'
-  case updEmpty | updKeep | updReset =>
+  case updEmpty | updKeep | updReset | deliverPanic =>
     intro i t hget hpc
     intros
     intro t' ht' hk'
@@ -760,7 +776,7 @@ theorem cntInv_step {v : Variant} {cap : Nat} {s s' : St} {w : Who} (hK : KindIn
     have := le_sum_map semW _ _ _ hget
     simp only [CntInv, sum_set_eq hget]
     cases hk : t.kind <;> simp_all [wgW, semW, wgPc, semPc, prodPc, afterAdd, afterPanic] <;> omega
-  case updEmpty | updKeep | updReset =>
+  case updEmpty | updKeep | updReset | deliverPanic =>
     intro i t hget hpc
     intros
     have ht := hK t (List.mem_of_getElem? hget)
@@ -785,15 +801,20 @@ def calm : Pc → Bool
   | .discard => false
   | _ => true
 
-/-- No goroutine panicked or is unwinding a panic, the process did not crash, no message was
-renamed to `.meta_broken`. -/
-def CalmInv (s : St) : Prop := s.crashed = false ∧ s.broken = [] ∧ ∀ t ∈ s.thr, calm t.pc = true
+/-- The process did not crash, no producer panicked; the only goroutines unwinding a panic are
+attempts whose delivery panicked (`Who.thrPanic`: a fault of the code the queue calls), and only
+their messages were renamed to `.meta_broken`. -/
+def CalmInv (s : St) : Prop :=
+  s.crashed = false ∧ (∀ m ∈ s.broken, m ∈ s.tpanic) ∧
+  ∀ t ∈ s.thr, calm t.pc = true ∨ (t.pc ≠ .panicked ∧ t.slot.msg ∈ s.tpanic)
 
 theorem calmInv_init (cap : Nat) (prods : List (Nat × Nat)) (wc : Bool) : CalmInv (init cap prods wc) := by
-  refine ⟨rfl, rfl, ?_⟩
-  intro t ht
-  simp only [init] at ht
-  simp [(mem_mkProducers _ _ _ ht).2, calm]
+  refine ⟨rfl, ?_, ?_⟩
+  · intro m hm
+    simp [init] at hm
+  · intro t ht
+    simp only [init] at ht
+    simp [(mem_mkProducers _ _ _ ht).2, calm]
 
 /-- Preserved by every step of the fixed variant, and by every step of either variant as long as
 the channel `Close` closes is still open. -/
@@ -803,27 +824,74 @@ theorem calmInv_step {v : Variant} {cap : Nat} {s s' : St} {w : Who} (hK : KindI
   obtain ⟨h1, h2, h3⟩ := hI
   obtain ⟨c1, c2, c3, c4⟩ := hC
   apply step_elim h (motive := fun _ s' => CalmInv s')
-  case acquire | acquireBad | deliverDone | deliverRetry | checkStopped | checkGo | lock | push | sendClosedUnfixed
-      | sendClosedFixed | releaseCrash | panicReleaseCrash | release | panicRelease | discard =>
-    intro i c t hget hpc
-    intros
-    have ht := h3 t (List.mem_of_getElem? hget)
+  case releaseCrash | panicReleaseCrash =>
+    intro i c t hget hpc _ hwg
+    exfalso
     have hk := hK t (List.mem_of_getElem? hget)
     have := le_sum_map wgW _ _ _ hget
-    refine ⟨?_, ?_, ?_⟩
-    · cases hkk : t.kind <;> simp_all [calm, wgW, wgPc, prodPc] <;> omega
-    · simp_all [calm]
+    cases hkk : t.kind <;> simp_all [wgW, wgPc, prodPc] <;> omega
+  case sendClosedUnfixed =>
+    intro i c t hget hpc hcl hu
+    exfalso
+    rcases hv with hv | hv
+    · rw [hv] at hu; cases hu
+    · rw [hv] at hcl; cases hcl
+  case acquire | acquireBad | deliverDone | deliverRetry | checkStopped | checkGo | lock | push
+      | sendClosedFixed | release =>
+    intro i c t hget hpc
+    intros
+    refine ⟨h1, h2, ?_⟩
+    intro t' ht'
+    rcases mem_set_cases ht' with rfl | hm
+    · left
+      cases hkk : t.kind <;> simp [calm, afterAdd, hkk]
+    · exact h3 t' hm
+  case panicRelease =>
+    intro i c t hget hpc _ _
+    have ht := h3 t (List.mem_of_getElem? hget)
+    refine ⟨h1, h2, ?_⟩
+    intro t' ht'
+    rcases mem_set_cases ht' with rfl | hm
+    · right
+      rcases ht with ht | ht
+      · simp [hpc, calm] at ht
+      · exact ⟨by simp, ht.2⟩
+    · exact h3 t' hm
+  case discard =>
+    intro i c t hget hpc
+    have ht := h3 t (List.mem_of_getElem? hget)
+    refine ⟨h1, ?_, ?_⟩
+    · intro m hm
+      simp only [List.mem_cons] at hm
+      rcases hm with rfl | hm
+      · rcases ht with ht | ht
+        · simp [hpc, calm] at ht
+        · exact ht.2
+      · exact h2 m hm
     · intro t' ht'
       rcases mem_set_cases ht' with rfl | hm
-      · cases hkk : t.kind <;> simp_all [calm, afterAdd, afterPanic, wgW, wgPc, prodPc] <;> omega
+      · left; rfl
       · exact h3 t' hm
+  case deliverPanic =>
+    intro i t hget hpc
+    refine ⟨h1, ?_, ?_⟩
+    · intro m hm
+      exact List.mem_cons_of_mem _ (h2 m hm)
+    · intro t' ht'
+      rcases mem_set_cases ht' with rfl | hm
+      · right
+        exact ⟨by simp, List.mem_cons_self⟩
+      · rcases h3 t' hm with h | h
+        · left; exact h
+        · right; exact ⟨h.1, List.mem_cons_of_mem _ h.2⟩
   case updEmpty | updKeep | updReset =>
     intro i t hget hpc
     intros
     refine ⟨h1, h2, ?_⟩
     intro t' ht'
     rcases mem_set_cases ht' with rfl | hm
-    · cases hkk : t.kind <;> simp [calm, afterAdd, hkk]
+    · left
+      cases hkk : t.kind <;> simp [calm, afterAdd, hkk]
     · exact h3 t' hm
   case dispatch =>
     intro cur hc
@@ -832,7 +900,7 @@ theorem calmInv_step {v : Variant} {cap : Nat} {s s' : St} {w : Who} (hK : KindI
     simp only [List.mem_append, List.mem_singleton] at ht'
     rcases ht' with hm | rfl
     · exact h3 t' hm
-    · rfl
+    · left; rfl
   case dispatchBad =>
     intro cur hc _hmem
     refine ⟨h1, h2, ?_⟩
@@ -840,7 +908,7 @@ theorem calmInv_step {v : Variant} {cap : Nat} {s s' : St} {w : Who} (hK : KindI
     simp only [List.mem_append, List.mem_singleton] at ht'
     rcases ht' with hm | rfl
     · exact h3 t' hm
-    · rfl
+    · left; rfl
   all_goals intros
   all_goals exact ⟨h1, h2, h3⟩
 
@@ -906,7 +974,7 @@ theorem ctlInv_step {v : Variant} {s s' : St} {w : Who} (hI : CtlInv s)
         have hj' := m1 j u hj
         simp_all
     all_goals simp_all
-  case updEmpty | updKeep | updReset =>
+  case updEmpty | updKeep | updReset | deliverPanic =>
     intro i t hget hpc
     intros
     have hi := m1 i t hget
@@ -1007,6 +1075,12 @@ theorem waitInv_step {v : Variant} {s s' : St} {w : Who} (hC : CtlInv s) (hI : W
     have := le_sum_map sendW _ _ _ hget
     simp only [sum_set_eq hget]
     cases hk : t.kind <;> simp_all [sendW, afterAdd] <;> omega
+  case deliverPanic =>
+    intro i t hget hpc htk
+    have := hI htk
+    have := le_sum_map sendW _ _ _ hget
+    simp only [sum_set_eq hget]
+    simp_all [sendW]
   case scanEmpty =>
     intro _ hc _
     simp [closest_none _ hc]
@@ -1067,25 +1141,92 @@ theorem calm_reach (cap : Nat) (prods : List (Nat × Nat)) (wc : Bool) (sched : 
 
 /-! ## the safety theorems -/
 
-/-- **No panic (fixed variant).**  Under every schedule, with or without a concurrent `Close`, for
-any number of producers and any semaphore capacity: the process never crashes with a negative
-WaitGroup counter, and no goroutine ever panics in `Add` (no send on a closed channel), is
-unwinding such a panic, or is about to quarantine its message. -/
+/-- No entry of the schedule makes a delivery attempt panic. -/
+def noTargetPanic : List Who → Bool
+  | [] => true
+  | .thrPanic _ :: _ => false
+  | _ :: ws => noTargetPanic ws
+
+theorem tpanic_step {v : Variant} {s s' : St} {w : Who} (hw : ∀ i, w ≠ .thrPanic i)
+    (h : step v s w = some s') : s'.tpanic = s.tpanic := by
+  revert hw
+  apply step_elim h (motive := fun w s' => (∀ i, w ≠ .thrPanic i) → s'.tpanic = s.tpanic)
+  case deliverPanic =>
+    intro i t _ _ hw
+    exact absurd rfl (hw i)
+  all_goals intros
+  all_goals rfl
+
+theorem tpanic_run {v : Variant} : ∀ (sched : List Who) (s : St), noTargetPanic sched = true →
+    (run v s sched).tpanic = s.tpanic := by
+  intro sched
+  induction sched with
+  | nil => intros; rfl
+  | cons w ws ih =>
+    intro s hn
+    have hw : ∀ i, w ≠ .thrPanic i := by
+      intro i hi; subst hi; simp [noTargetPanic] at hn
+    have hn' : noTargetPanic ws = true := by
+      cases w <;> simp_all [noTargetPanic]
+    simp only [run]
+    cases hs : step v s w with
+    | none => exact ih s hn'
+    | some s' =>
+      simp only [Option.getD_some]
+      rw [ih s' hn', tpanic_step hw hs]
+
+/-- **No panic of the queue's own making (fixed variant).**  Under every schedule, with or without a
+concurrent `Close`, for any number of producers and any semaphore capacity, and whatever panics the
+delivery targets throw (`Who.thrPanic`): the process never crashes with a negative WaitGroup counter,
+no goroutine ever panics in `Add` (no send on a closed channel), and a goroutine that is unwinding a
+panic or is about to quarantine its message is the attempt of a message whose delivery panicked. -/
 theorem C12_no_panic (cap : Nat) (prods : List (Nat × Nat)) (wc : Bool) (sched : List Who) :
     (run .fixed (init cap prods wc) sched).crashed = false ∧
     ∀ t ∈ (run .fixed (init cap prods wc) sched).thr,
-      t.pc ≠ .panicked ∧ t.pc ≠ .panicRelease ∧ t.pc ≠ .discard := by
+      t.pc ≠ .panicked ∧
+      ((t.pc = .panicRelease ∨ t.pc = .discard) → t.slot.msg ∈ (run .fixed (init cap prods wc) sched).tpanic) := by
   obtain ⟨h1, _, h3⟩ := calm_reach cap prods wc sched
   refine ⟨h1, ?_⟩
   intro t ht
   have := h3 t ht
   cases hp : t.pc <;> simp_all [calm]
 
-/-- **Shutdown never quarantines a message (fixed variant).**  Under every schedule no message is
-renamed to `.meta_broken`. -/
+/-- The same when no delivery panics: nobody ever unwinds a panic (the statement of the property). -/
+theorem C12_no_panic_without_target_panic (cap : Nat) (prods : List (Nat × Nat)) (wc : Bool) (sched : List Who)
+    (hn : noTargetPanic sched = true) :
+    (run .fixed (init cap prods wc) sched).crashed = false ∧
+    ∀ t ∈ (run .fixed (init cap prods wc) sched).thr,
+      t.pc ≠ .panicked ∧ t.pc ≠ .panicRelease ∧ t.pc ≠ .discard := by
+  obtain ⟨h1, h2⟩ := C12_no_panic cap prods wc sched
+  have htp : (run .fixed (init cap prods wc) sched).tpanic = [] := by
+    rw [tpanic_run sched _ hn]; rfl
+  refine ⟨h1, ?_⟩
+  intro t ht
+  obtain ⟨ha, hb⟩ := h2 t ht
+  rw [htp] at hb
+  refine ⟨ha, ?_, ?_⟩
+  · intro hp; exact absurd (hb (Or.inl hp)) (by simp)
+  · intro hp; exact absurd (hb (Or.inr hp)) (by simp)
+
+/-- **Only a panicking delivery quarantines a message (fixed variant).**  Under every schedule a
+message renamed to `.meta_broken` is one whose delivery attempt panicked; shutdown, enqueues and
+retries in any interleaving never quarantine anything. -/
 theorem C12_no_broken_mark_on_shutdown (cap : Nat) (prods : List (Nat × Nat)) (wc : Bool)
-    (sched : List Who) : (run .fixed (init cap prods wc) sched).broken = [] :=
+    (sched : List Who) :
+    ∀ m ∈ (run .fixed (init cap prods wc) sched).broken, m ∈ (run .fixed (init cap prods wc) sched).tpanic :=
   (calm_reach cap prods wc sched).2.1
+
+/-- Without a panicking delivery no message is renamed to `.meta_broken`. -/
+theorem C12_no_broken_mark_without_target_panic (cap : Nat) (prods : List (Nat × Nat)) (wc : Bool)
+    (sched : List Who) (hn : noTargetPanic sched = true) :
+    (run .fixed (init cap prods wc) sched).broken = [] := by
+  have h := C12_no_broken_mark_on_shutdown cap prods wc sched
+  have htp : (run .fixed (init cap prods wc) sched).tpanic = [] := by
+    rw [tpanic_run sched _ hn]; rfl
+  rw [htp] at h
+  cases hb : (run .fixed (init cap prods wc) sched).broken with
+  | nil => rfl
+  | cons m ms => rw [hb] at h; exact absurd (h m (List.mem_cons_self)) (by simp)
 
 /-- **Never before its time (both variants).**  Every dispatch callback happens at a clock value
 that is at least the time the entry was scheduled for. -/
@@ -1271,7 +1412,7 @@ theorem C12_steps_decrease {v : Variant} {s s' : St} {w : Who} (hT : TickCurIn s
     have := le_sum_map thrW _ _ _ hget
     simp only [mu, sum_set_eq hget]
     cases hk : t.kind <;> simp_all [thrW, pcW, slotW, afterAdd, afterPanic] <;> omega
-  case updEmpty | updKeep | updReset =>
+  case updEmpty | updKeep | updReset | deliverPanic =>
     intro i t hget hpc
     intros
     have := le_sum_map thrW _ _ _ hget
@@ -1803,6 +1944,11 @@ theorem stuck_of_done {v : Variant} {s : St} (hd : ∀ t ∈ s.thr, t.pc = .done
     cases hget : s.thr[i]? with
     | none => rfl
     | some t => simp [hd t (List.mem_of_getElem? hget)]
+  | thrPanic i =>
+    simp only [step, stepThrPanic]
+    cases hget : s.thr[i]? with
+    | none => rfl
+    | some t => simp [hd t (List.mem_of_getElem? hget)]
   | closer => rcases hc with hc | hc <;> simp [step, stepCloser, hc]
   | tick => rcases ht with ht | ht <;> simp [step, stepTick, ht]
   | tickBad => rcases ht with ht | ht <;> simp [step, stepTickBad, ht]
@@ -1910,13 +2056,26 @@ theorem C12_close_waits_for_attempts (v : Variant) (cap : Nat) (prods : List (Na
   | false => rfl
   | true => simp [wgW, hk, hp] at this
 
-/-- Fixed variant: after `Close` returned every attempt goroutine has finished normally. -/
+/-- Fixed variant: after `Close` returned every attempt goroutine has finished — or it is the attempt
+of a message whose delivery panicked and only the quarantine rename is left (`discardBroken` runs
+after `deliveryWg.Done()` in the deferred function; see `C12_quarantine_may_follow_close`). -/
 theorem C12_close_waits_for_attempts_fixed (cap : Nat) (prods : List (Nat × Nat)) (wc : Bool)
     (sched : List Who) (hd : (run .fixed (init cap prods wc) sched).closer = some .done) :
-    ∀ t ∈ (run .fixed (init cap prods wc) sched).thr, t.kind = .attempt → t.pc = .done := by
+    ∀ t ∈ (run .fixed (init cap prods wc) sched).thr, t.kind = .attempt →
+      t.pc = .done ∨ (t.pc = .discard ∧ t.slot.msg ∈ (run .fixed (init cap prods wc) sched).tpanic) := by
   intro t ht hk
   have h1 := (C12_close_waits_for_attempts .fixed cap prods wc sched hd).2 t ht hk
   have h2 := (C12_no_panic cap prods wc sched).2 t ht
+  cases hp : t.pc <;> simp_all [wgPc]
+
+/-- Without a panicking delivery: after `Close` returned every attempt goroutine has finished. -/
+theorem C12_close_waits_for_attempts_no_target_panic (cap : Nat) (prods : List (Nat × Nat)) (wc : Bool)
+    (sched : List Who) (hn : noTargetPanic sched = true)
+    (hd : (run .fixed (init cap prods wc) sched).closer = some .done) :
+    ∀ t ∈ (run .fixed (init cap prods wc) sched).thr, t.kind = .attempt → t.pc = .done := by
+  intro t ht hk
+  have h1 := (C12_close_waits_for_attempts .fixed cap prods wc sched hd).2 t ht hk
+  have h2 := (C12_no_panic_without_target_panic cap prods wc sched hn).2 t ht
   cases hp : t.pc <;> simp_all [wgPc]
 
 /-- non-vacuity: in the race schedule `Close` has returned and one attempt goroutine exists -/
@@ -1985,6 +2144,11 @@ theorem earlyInv_step {v : Variant} {s s' : St} {w : Who} (hC : CtlInv s) (hI : 
     intro i c t hget hpc
     intros
     intro cur hcur x hx hlt
+    obtain ⟨t', ht', hp', hs'⟩ := hI cur hcur x hx hlt
+    refine ⟨t', mem_set_of_ne ht' hget ?_, hp', hs'⟩
+    intro h; subst h; rw [hpc] at hp'; cases hp'
+  case deliverPanic =>
+    intro i t hget hpc cur hcur x hx hlt
     obtain ⟨t', ht', hp', hs'⟩ := hI cur hcur x hx hlt
     refine ⟨t', mem_set_of_ne ht' hget ?_, hp', hs'⟩
     intro h; subst h; rw [hpc] at hp'; cases hp'
@@ -2102,7 +2266,7 @@ theorem attInv_step {v : Variant} {s s' : St} {w : Who} (hI : AttInv s)
     simp only [AttInv, sum_set_eq hget]
     simp only [AttInv] at hI
     simp_all [attW]
-  case updEmpty | updKeep | updReset =>
+  case updEmpty | updKeep | updReset | deliverPanic =>
     intro i t hget hpc
     intros
     have := le_sum_map attW _ _ _ hget
@@ -2234,6 +2398,199 @@ example :
 example :
     0 < 1 ∧ (∀ w, (∀ d, w ≠ .clock d) → step .fixed (run .fixed (init 1 [(3, 0)] true) badOpenSched) w = none) :=
   ⟨by decide, stuck_of_done (by decide) (Or.inr (by decide)) (Or.inr (by decide))⟩
+
+/-! ## a delivery attempt that panics (`Who.thrPanic`, panic recovery active) -/
+
+/-- **A panicking delivery enters the deferred function.**  Whatever the stage of the dialogue, the
+attempt decided nothing (no retry, nothing removed) and is at `panicRelease`, still holding its
+semaphore token and still counted by the WaitGroup. -/
+theorem C12_target_panic_step (v : Variant) (s : St) (i : Nat) (t : Thread) (hget : s.thr[i]? = some t)
+    (hpc : t.pc = .deliver) :
+    step v s (.thrPanic i) =
+      some { s with tpanic := t.slot.msg :: s.tpanic, thr := s.thr.set i { t with pc := .panicRelease } } := by
+  simp [step, stepThrPanic, hget, hpc]
+
+/-- **The deferred function entered by a panic releases exactly what a normal end releases**
+(`C12_release_step`): one semaphore token and one unit of the WaitGroup; what differs is only what
+the goroutine does afterwards (`discard`: `recover()` → `discardBroken`). -/
+theorem C12_panic_release_step (v : Variant) (s : St) (i c : Nat) (t : Thread) (hget : s.thr[i]? = some t)
+    (hpc : t.pc = .panicRelease) (hsem : s.semHeld ≠ 0) (hwg : s.wg ≠ 0) :
+    step v s (.thr i c) =
+      some { s with semHeld := s.semHeld - 1, wg := s.wg - 1, thr := s.thr.set i { t with pc := .discard } } := by
+  simp [step, stepThr, hget, hpc, hsem, hwg]
+
+/-- The containment step: the message of the panicked attempt is renamed to `.meta_broken`. -/
+theorem C12_quarantine_step (v : Variant) (s : St) (i c : Nat) (t : Thread) (hget : s.thr[i]? = some t)
+    (hpc : t.pc = .discard) :
+    step v s (.thr i c) =
+      some { s with broken := t.slot.msg :: s.broken, thr := s.thr.set i { t with pc := .done } } := by
+  simp [step, stepThr, hget, hpc]
+
+/-- Every message whose delivery panicked is quarantined, or the goroutine that is going to
+quarantine it is still on its way (in the deferred function). -/
+def QuarInv (s : St) : Prop :=
+  ∀ m ∈ s.tpanic, m ∈ s.broken ∨ ∃ t ∈ s.thr, (t.pc = .panicRelease ∨ t.pc = .discard) ∧ t.slot.msg = m
+
+theorem quarInv_step {v : Variant} {cap : Nat} {s s' : St} {w : Who} (hK : KindInv s) (hC : CntInv cap s)
+    (hI : QuarInv s) (h : step v s w = some s') : QuarInv s' := by
+  obtain ⟨c1, c2, c3, c4⟩ := hC
+  have keep : ∀ (i : Nat) (t : Thread) (pc : Pc) (sl : Slot), s.thr[i]? = some t →
+      t.pc ≠ .panicRelease → t.pc ≠ .discard →
+      ∀ m ∈ s.tpanic, m ∈ s.broken ∨ ∃ u ∈ s.thr.set i { t with slot := sl, pc := pc },
+        (u.pc = .panicRelease ∨ u.pc = .discard) ∧ u.slot.msg = m := by
+    intro i t pc sl hget hp1 hp2 m hm
+    rcases hI m hm with hb | ⟨u, hu, hpu, hmu⟩
+    · exact Or.inl hb
+    · refine Or.inr ⟨u, mem_set_of_ne hu hget ?_, hpu, hmu⟩
+      intro hut; subst hut
+      rcases hpu with hpu | hpu
+      · exact hp1 hpu
+      · exact hp2 hpu
+  apply step_elim h (motive := fun _ s' => QuarInv s')
+  case releaseCrash | panicReleaseCrash =>
+    intro i c t hget hpc _ hwg
+    exfalso
+    have hk := hK t (List.mem_of_getElem? hget)
+    have := le_sum_map wgW _ _ _ hget
+    cases hkk : t.kind <;> simp_all [wgW, wgPc, prodPc] <;> omega
+  case acquire | acquireBad | deliverDone | checkStopped | checkGo | lock | push | sendClosedFixed | release =>
+    intro i c t hget hpc
+    intros
+    exact keep i t _ t.slot hget (by rw [hpc]; simp) (by rw [hpc]; simp)
+  case deliverRetry =>
+    intro i d t hget hpc _
+    exact keep i t _ _ hget (by rw [hpc]; simp) (by rw [hpc]; simp)
+  case updEmpty | updKeep | updReset =>
+    intro i t hget hpc
+    intros
+    exact keep i t _ t.slot hget (by rw [hpc]; simp) (by rw [hpc]; simp)
+  case sendClosedUnfixed =>
+    intro i c t hget hpc _ _ m hm
+    have hil : i < s.thr.length := (List.getElem?_eq_some_iff.mp hget).1
+    rcases hI m hm with hb | ⟨u, hu, hpu, hmu⟩
+    · exact Or.inl hb
+    · refine Or.inr ⟨u, mem_set_of_ne hu hget ?_, hpu, hmu⟩
+      intro hut; subst hut
+      rw [hpc] at hpu
+      rcases hpu with hpu | hpu <;> cases hpu
+  case panicRelease =>
+    intro i c t hget hpc _ _ m hm
+    have hil : i < s.thr.length := (List.getElem?_eq_some_iff.mp hget).1
+    rcases hI m hm with hb | ⟨u, hu, hpu, hmu⟩
+    · exact Or.inl hb
+    · by_cases hut : u = t
+      · subst hut
+        exact Or.inr ⟨{ u with pc := .discard }, List.mem_iff_getElem?.mpr ⟨i, by simp [List.getElem?_set, hil]⟩, Or.inr rfl, hmu⟩
+      · exact Or.inr ⟨u, mem_set_of_ne hu hget hut, hpu, hmu⟩
+  case discard =>
+    intro i c t hget hpc m hm
+    rcases hI m hm with hb | ⟨u, hu, hpu, hmu⟩
+    · exact Or.inl (List.mem_cons_of_mem _ hb)
+    · by_cases hut : u = t
+      · subst hut
+        left; rw [← hmu]; exact List.mem_cons_self
+      · exact Or.inr ⟨u, mem_set_of_ne hu hget hut, hpu, hmu⟩
+  case deliverPanic =>
+    intro i t hget hpc m hm
+    have hil : i < s.thr.length := (List.getElem?_eq_some_iff.mp hget).1
+    simp only [List.mem_cons] at hm
+    rcases hm with rfl | hm
+    · exact Or.inr ⟨{ t with pc := .panicRelease }, List.mem_iff_getElem?.mpr ⟨i, by simp [List.getElem?_set, hil]⟩, Or.inl rfl, rfl⟩
+    · rcases hI m hm with hb | ⟨u, hu, hpu, hmu⟩
+      · exact Or.inl hb
+      · refine Or.inr ⟨u, mem_set_of_ne hu hget ?_, hpu, hmu⟩
+        intro hut; subst hut
+        rw [hpc] at hpu
+        rcases hpu with hpu | hpu <;> cases hpu
+  case dispatch =>
+    intro cur hc m hm
+    rcases hI m hm with hb | ⟨u, hu, hpu, hmu⟩
+    · exact Or.inl hb
+    · exact Or.inr ⟨u, List.mem_append_left _ hu, hpu, hmu⟩
+  case dispatchBad =>
+    intro cur hc _ m hm
+    rcases hI m hm with hb | ⟨u, hu, hpu, hmu⟩
+    · exact Or.inl hb
+    · exact Or.inr ⟨u, List.mem_append_left _ hu, hpu, hmu⟩
+  all_goals intros
+  all_goals exact hI
+
+theorem quar_reach (v : Variant) (cap : Nat) (prods : List (Nat × Nat)) (wc : Bool) (sched : List Who) :
+    QuarInv (run v (init cap prods wc) sched) := by
+  have := run_inv (v := v) (fun s => Inv cap s ∧ QuarInv s)
+    (fun s w s' hI h => ⟨inv_step hI.1 h, quarInv_step hI.1.kind hI.1.cnt hI.2 h⟩)
+    sched _ ⟨inv_init cap prods wc, by intro m hm; simp [init] at hm⟩
+  exact this.2
+
+/-- **The panic is contained: the offending message ends up quarantined (both variants).**  In a
+reachable state in which no goroutine can take a step, every message whose delivery panicked has been
+renamed to `.meta_broken` (the goroutine in the deferred function is never blocked:
+`C12_panic_release_step`, `C12_quarantine_step`, `C12_counts`).  Together with `C12_close_terminates`,
+`C12_wg_zero_when_stuck` and `C12_all_dispatched_when_quiescent`, which quantify over schedules with
+panicking deliveries too: shutdown still terminates and every other entry is still dispatched once. -/
+theorem C12_target_panic_quarantined_when_stuck (v : Variant) (cap : Nat) (prods : List (Nat × Nat)) (wc : Bool)
+    (sched : List Who)
+    (hq : ∀ w, (∀ d, w ≠ .clock d) → step v (run v (init cap prods wc) sched) w = none) :
+    ∀ m ∈ (run v (init cap prods wc) sched).tpanic, m ∈ (run v (init cap prods wc) sched).broken := by
+  intro m hm
+  have hI := inv_reach v cap prods wc sched
+  rcases quar_reach v cap prods wc sched m hm with hb | ⟨u, hu, hpu, hmu⟩
+  · exact hb
+  · exfalso
+    obtain ⟨i, hget⟩ := List.mem_iff_getElem?.mp hu
+    have hstuck := hq (.thr i 0) (by intro d hd; cases hd)
+    obtain ⟨c1, c2, c3, c4⟩ := hI.cnt
+    have hk := hI.kind u hu
+    have hsem := le_sum_map semW _ _ _ hget
+    have hwg := le_sum_map wgW _ _ _ hget
+    rcases hpu with hpu | hpu
+    · have h1 : (run v (init cap prods wc) sched).semHeld ≠ 0 := by
+        cases hkk : u.kind <;> simp_all [semW, semPc, prodPc] <;> omega
+      have h2 : (run v (init cap prods wc) sched).wg ≠ 0 := by
+        cases hkk : u.kind <;> simp_all [wgW, wgPc, prodPc] <;> omega
+      rw [C12_panic_release_step v _ i 0 u hget hpu h1 h2] at hstuck
+      cases hstuck
+    · rw [C12_quarantine_step v _ i 0 u hget hpu] at hstuck
+      cases hstuck
+
+/-- One message due at once (`Commit`), one restart-style entry due at 2; the delivery of the first
+panics while `Close` is waiting in `deliveryWg.Wait()`. -/
+def panicSched : List Who :=
+  [ .thr 0 0, .thr 0 0, .thr 0 0,                   -- producer 0: check, lock, push
+    .tick, .tick, .tick, .tick, .tickUpd 0,         -- tick: now, lock, scan, newtimer; notification
+    .tickTimer, .tick, .tick, .tick,                -- timer: lock, remove, dispatch (goroutine 2)
+    .thr 2 0,                                       -- attempt: semaphore
+    .closer, .tick, .tick, .tick, .tickStop, .tick, .closer,   -- Close: stop handshake, close(done)
+    .closer,                                        -- deliveryWg.Wait(): blocked
+    .thrPanic 2,                                    -- the delivery target panics
+    .closer,                                        -- still blocked
+    .thr 2 0,                                       -- deferred function: semaphore released, deliveryWg.Done()
+    .closer,                                        -- Close returns …
+    .thr 2 0 ]                                      -- … and only then the message is quarantined
+
+/-- non-vacuity of the panic path; and **the quarantine rename may follow the return of `Close`**
+(`discardBroken` is called after `deliveryWg.Done()`): after 25 steps `Close` has returned while the
+attempt goroutine is still at `discard`. -/
+theorem C12_quarantine_may_follow_close :
+    (run .fixed (init 1 [(0, 0), (2, 0)] true) (panicSched.take 23)).closer = some .wgWait ∧
+    (run .fixed (init 1 [(0, 0), (2, 0)] true) (panicSched.take 23)).wg = 1 ∧
+    (run .fixed (init 1 [(0, 0), (2, 0)] true) (panicSched.take 25)).closer = some .done ∧
+    ((run .fixed (init 1 [(0, 0), (2, 0)] true) (panicSched.take 25)).thr.map (·.pc)) = [.done, .check, .discard] ∧
+    (run .fixed (init 1 [(0, 0), (2, 0)] true) (panicSched.take 25)).broken = [] ∧
+    (run .fixed (init 1 [(0, 0), (2, 0)] true) panicSched).broken = [0] ∧
+    (run .fixed (init 1 [(0, 0), (2, 0)] true) panicSched).tpanic = [0] ∧
+    (run .fixed (init 1 [(0, 0), (2, 0)] true) panicSched).removed = [] ∧
+    (run .fixed (init 1 [(0, 0), (2, 0)] true) panicSched).wg = 0 ∧
+    (run .fixed (init 1 [(0, 0), (2, 0)] true) panicSched).semHeld = 0 ∧
+    (run .fixed (init 1 [(0, 0), (2, 0)] true) panicSched).crashed = false := by decide
+
+/-- hypotheses of `C12_target_panic_step` / `C12_panic_release_step` / `C12_quarantine_step` hold on that run -/
+example :
+    ((run .fixed (init 1 [(0, 0), (2, 0)] true) (panicSched.take 21)).thr[2]?.map (·.pc)) = some .deliver ∧
+    ((run .fixed (init 1 [(0, 0), (2, 0)] true) (panicSched.take 23)).thr[2]?.map (·.pc)) = some .panicRelease ∧
+    (run .fixed (init 1 [(0, 0), (2, 0)] true) (panicSched.take 23)).semHeld ≠ 0 ∧
+    (run .fixed (init 1 [(0, 0), (2, 0)] true) (panicSched.take 23)).wg ≠ 0 ∧
+    noTargetPanic panicSched = false ∧ noTargetPanic raceSched = true := by decide
 
 /-! ## the pinned tree: the panic also escapes from a producer's `Commit` -/
 
